@@ -511,7 +511,8 @@ func doWrite(b *Backend, op *Op) error {
 		if len(dels) > 0 || op.OnMiss != OptAbsent {
 			req.Deletes = &openfgav1.WriteRequestDeletes{TupleKeys: dels, OnMissing: optStr[op.OnMiss]}
 		}
-		_, err := commands.NewWriteCommand(b.DS).Execute(ctx, req)
+		// the context byte limit is configured low (default 32KB) so that a 600-byte context exceeds it
+		_, err := commands.NewWriteCommand(b.DS, commands.WithConditionContextByteLimit(512)).Execute(ctx, req)
 		return err
 	}
 	var opts []storage.TupleWriteOption
